@@ -76,6 +76,10 @@ def cases(tier, seed):
             c["alias_best"] = True
         if c["kind"] == "sampler" and rnd2.random() < 0.3:
             c["cfg"]["torchrl"] = True  # documented TorchRL mode: the stepped-from state must survive the step
+    rnd3 = random.Random(seed * 7 + 3)
+    for c in out:
+        if c["kind"] == "sampler" and rnd3.random() < 0.35:
+            c["interleave"] = True  # a second search on other instances of the same shape alternates on the same env object
     return out
 
 
